@@ -15,7 +15,7 @@ from .core import SV, SB, I, R, Unsupported, lift, to_real, model_value
 
 
 class Obl:
-    __slots__ = ('label', 'cond', 'kf', 'alt', 'npc', 'nas')
+    __slots__ = ('label', 'cond', 'kf', 'alt', 'npc', 'nas', 'snap')
 
     def __init__(self, label, cond, kf=None, alt=None, npc=None, nas=None):
         self.label = label
@@ -24,6 +24,7 @@ class Obl:
         self.alt = alt
         self.npc = npc      # length of the path condition / assumption list when the obligation was stated:
         self.nas = nas      # it is decided under that prefix only, so the verdict holds for every extension
+        self.snap = None    # set for obligations stated inside an isolated block (snapshot of that sub-path)
 
 
 def _b(c):
@@ -50,6 +51,7 @@ class SymEnv:
         self.observations = []
         self.uf_calls = {}
         self.notes = {}
+        self._in_block = False
 
     # ---- inputs
     def real(self, name, lo=None, hi=None, lo_strict=False, hi_strict=False):
@@ -203,7 +205,24 @@ class SymEnv:
         self.obligations.append(Obl(label, cond, kf, alt, len(self.ctx.pc), len(self.ctx.assumes)))
 
     def observe(self, label, value):
-        self.observations.append((label, value))
+        if not self._in_block:
+            self.observations.append((label, value))
+
+    def isolated(self, block, fn):
+        """run fn() (which must work on copies of the objects under test) as a nested exploration: its branches do
+        not multiply with the rest of the scenario"""
+        n0 = [len(self.obligations)]
+
+        def on_sub(sn):
+            for o in self.obligations[n0[0]:]:
+                if o.snap is None:
+                    o.snap = sn
+            n0[0] = len(self.obligations)
+        self._in_block = True
+        try:
+            self.ctx.isolated(fn, block, on_sub)
+        finally:
+            self._in_block = False
 
     @property
     def log(self):
@@ -227,6 +246,7 @@ class ConcEnv:
         self.uf_tables = uf_tables or {}
         self._log = log if log is not None else []
         self.notes = {}
+        self.only_block = None
 
     def _get(self, name):
         k = self.names.get(name, 0)
@@ -337,6 +357,14 @@ class ConcEnv:
 
     def decide(self, c):
         return bool(c)
+
+    def isolated(self, block, fn):
+        """replay: only the block the failing obligation belongs to is executed (blocks work on copies, so skipping
+        the others does not change the main run); translation validation skips all blocks"""
+        if self.only_block is not None and block == self.only_block:
+            fn()
+            from .stubs import StopReplay
+            raise StopReplay()
 
     def ob(self, label, cond, kf=None, alt=None):
         self.obligations.append(Obl(label, bool(cond), kf, None if alt is None else bool(alt)))
